@@ -262,10 +262,13 @@ impl<'a> CallContext<'a> {
         let result = f(&mut self);
 
         debug!(target: "debugger", "retrieve original registers and instructions");
-        self.retrieve_original_state()
-            .expect("failed to retrieve original program state after a call");
+        // the debugee may be gone (killed from outside, or by the call itself): then there is
+        // no state to put back and the call reports an error, it does not take the debugger down
+        let restored = self.retrieve_original_state();
 
-        result
+        let value = result?;
+        restored?;
+        Ok(value)
     }
 }
 
